@@ -30,6 +30,54 @@ pub(crate) mod utils;
 pub(crate) mod verif_shim {
     pub(crate) use super::client::verif_decode_and_verify_responses as decode_and_verify_responses;
     pub(crate) use super::client::verif_client::{VerifClient, VerifEvent, VerifReqState, VerifSnapshot};
+
+    // server handler + wire codec (C29, C30)
+    pub(crate) use super::server::verif_shim::VerifServer;
+
+    use super::{HeaderCodec, HeaderRequest, HeaderResponse};
+    use futures::{AsyncRead, AsyncWrite};
+    use libp2p::StreamProtocol;
+    use libp2p::request_response::Codec;
+    use std::io;
+
+    pub(crate) const REQUEST_SIZE_LIMIT: usize = super::REQUEST_SIZE_LIMIT;
+    pub(crate) const RESPONSE_SIZE_LIMIT: usize = super::RESPONSE_SIZE_LIMIT;
+
+    fn protocol() -> StreamProtocol {
+        StreamProtocol::new("/verif/header-ex")
+    }
+
+    /// `HeaderCodec::read_request` over any `AsyncRead`.
+    pub(crate) async fn read_request<T>(io: &mut T) -> io::Result<HeaderRequest>
+    where
+        T: AsyncRead + Unpin + Send,
+    {
+        HeaderCodec.read_request(&protocol(), io).await
+    }
+
+    /// `HeaderCodec::read_response` over any `AsyncRead`.
+    pub(crate) async fn read_response<T>(io: &mut T) -> io::Result<Vec<HeaderResponse>>
+    where
+        T: AsyncRead + Unpin + Send,
+    {
+        HeaderCodec.read_response(&protocol(), io).await
+    }
+
+    /// `HeaderCodec::write_request` over any `AsyncWrite`.
+    pub(crate) async fn write_request<T>(io: &mut T, req: HeaderRequest) -> io::Result<()>
+    where
+        T: AsyncWrite + Unpin + Send,
+    {
+        HeaderCodec.write_request(&protocol(), io, req).await
+    }
+
+    /// `HeaderCodec::write_response` over any `AsyncWrite`.
+    pub(crate) async fn write_response<T>(io: &mut T, resps: Vec<HeaderResponse>) -> io::Result<()>
+    where
+        T: AsyncWrite + Unpin + Send,
+    {
+        HeaderCodec.write_response(&protocol(), io, resps).await
+    }
 }
 
 use crate::p2p::P2pError;
